@@ -13,7 +13,8 @@ class C01(Prop):
     rule = (
         "streams: 'exact' = every y in {0..3}^n (n<=5 quick, <=7 thorough) scaled by lcm(1..21) x weight patterns x both "
         "directions (float run is exact, compared bit for bit on x and r); 'random' = structured random y/w (ties, sorted, "
-        "saw-tooth, first weight != 1, dyadic/float weights), tolerance 1e-9 and the float-tie rule on r; 'pava' = pava() "
+        "saw-tooth, first weight != 1, dyadic/float weights), tolerance 1e-9 and the float-tie rule on r; 'dtype' = bool / int8 / uint8 / "
+        "float32 observations and uint8 / int16 / int32 / bool weights whose pooled sums overflow the dtype; 'pava' = pava() "
         "called directly. Non-trivial = at least one pooling step (fewer blocks than observations) and not constant input; "
         "distinct = distinct (y, w, direction)."
     )
@@ -41,7 +42,7 @@ class C01(Prop):
                     }
         nrand = 2000 if tier == "quick" else 40000
         for k in range(nrand):
-            n = rng.choice([1, 2, 3, 5, 8, 13, 30, 60]) if rng.random() < 0.8 else rng.randint(61, 200 if tier == "quick" else 1500)
+            n = rng.choice([1, 2, 3, 5, 8, 13, 30, 60]) if rng.random() < 0.8 else rng.randint(61, 200 if tier == "quick" else 300)
             yield {
                 "stream": "random",
                 "f": "mean",
@@ -50,6 +51,26 @@ class C01(Prop):
                 "y": ic.gen_y(rng, n),
                 "w": ic.gen_w(rng, n),
             }
+        for k in range(400 if tier == "quick" else 4000):
+            # narrow dtypes: bool / small-int observations, uint8 / int16 / int32 weights whose pooled sums overflow the dtype
+            n = rng.randint(2, 12)
+            ydt = rng.choice(["bool", "int8", "uint8", "int64", "float32"])
+            if ydt == "bool":
+                ys = [rng.randint(0, 1) for _ in range(n)]
+            else:
+                ys = [rng.randint(0, 100) for _ in range(n)]
+            if rng.random() < 0.5:
+                ys.sort(reverse=rng.random() < 0.7)  # long violating runs -> large pooled weights
+            wdt = rng.choice([None, "uint8", "int16", "int32", "bool"])
+            if wdt is None:
+                w = None
+            elif wdt == "bool":
+                w = [1] * n
+            else:
+                top = {"uint8": 120, "int16": 20000, "int32": 1_500_000_000}[wdt]
+                w = [rng.randint(top // 2, top) for _ in range(n)]
+            yield {"stream": "dtype", "f": "mean", "level": "1/2", "inc": rng.random() < 0.5, "ydtype": ydt, "wdtype": wdt,
+                   "y": [str(v) for v in ys], "w": None if w is None else [str(v) for v in w]}
         for k in range(300 if tier == "quick" else 3000):
             n = rng.randint(1, 40)
             yield {"stream": "pava", "f": "mean", "level": "1/2", "inc": True, "y": ic.gen_y(rng, n), "w": ic.gen_w(rng, n, allow_none=False)}
@@ -64,6 +85,22 @@ class C01(Prop):
             x, r = pava(y, w)
             return {"x": [float(v) for v in x], "r": [int(v) for v in r],
                     "mutated": bool(not np.array_equal(y, y0) or not np.array_equal(w, w0))}
+        if case["stream"] == "dtype":
+            from model_diagnostics._utils.isotonic import isotonic_regression
+            from .core import exc_class
+            import warnings
+
+            y = np.array([int(v) for v in case["y"]]).astype(case["ydtype"])
+            w = None if case["w"] is None else np.array([int(v) for v in case["w"]]).astype(case["wdtype"])
+            y0, w0 = y.copy(), None if w is None else w.copy()
+            try:
+                with warnings.catch_warnings():
+                    warnings.simplefilter("ignore")
+                    x, r = isotonic_regression(y, w, increasing=case["inc"])
+            except Exception as e:
+                return {"err": exc_class(e)}
+            return {"x": [float(v) for v in x], "r": [int(v) for v in r],
+                    "mutated": bool(not np.array_equal(y, y0) or (w is not None and not np.array_equal(w, w0)))}
         return ic.call_iso(case)
 
     def model_request(self, case):
